@@ -1953,3 +1953,523 @@ def _anc(node: ast.AST):
 
 def model_unsupported(rule: str, what: str, e: Exception) -> AnchorError:
     return AnchorError(f"{rule}: {what} uses a construct the model does not interpret ({e}); the rule cannot decide")
+
+
+# =====================================================================================================
+# Part C — the C28 rules
+# =====================================================================================================
+
+EXPLANATION = (
+    "Static rules over llama_agents/server/_store/sqlite/migrate.py, migration_utils.py and migrations/*.sql (the .sql files are read "
+    "as text by a DDL reader; the Python functions are interpreted as ASTs by sa.absint extended in this module; nothing is imported or run). "
+    "R1 (exhaustive over starting points): for every start state — fresh database; every prefix 1..j of the scripts as applied by "
+    "`run_migrations` itself when only those j files existed; every legacy database with the first j scripts applied, `PRAGMA user_version` = "
+    "version of script j and no `schema_migrations` table; every legacy database already bootstrapped at j — the interpreted `run_migrations` "
+    "(with `_bootstrap_schema_migrations`, `iter_migration_files`, `parse_target_version` interpreted too, directory listing given in reverse "
+    "order) applied to a model connection whose schema is the abstract DDL state meets no statement that SQLite would reject in that state "
+    "(CREATE of an existing table/index without IF NOT EXISTS, ADD COLUMN of an existing column or NOT NULL without default, index on a "
+    "missing column, missing table), ends in the same abstract schema as the fresh run, leaves exactly one `schema_migrations` row per script "
+    "version for the package, and a second run executes no state-changing statement. "
+    "R2 (bookkeeping on failure): with a failing statement injected at the end of script i (every i), the exception propagates, the "
+    "database state equals the state after scripts < i (partial DDL rolled back, version i not recorded) and no transaction stays open. "
+    "R3: every *.sql file carries a version header that `parse_target_version` reads, versions are 1..N without duplicates in file-name "
+    "order; every table/column named by SQL text in sqlite_workflow_store.py / sqlite_state_store.py and by the bookkeeping SQL of "
+    "migrate.py exists in the final abstract schema. "
+    "Not decided: SQLite's own behaviour (WAL fallback, locking, transactional DDL, executescript's implicit COMMIT are modelled, not verified); "
+    "databases whose schema was produced by anything other than these scripts; the Postgres migrations."
+)
+TRUSTED = [
+    "CPython ast, re",
+    "SQLite semantics as modelled by sqlmini in this module (DDL applicability rules, transactional DDL, executescript commits a pending transaction first); "
+    "the model is cross-checked against CPython's sqlite3 on the statement kinds used (checker validation, not a check of /repo)",
+    "importlib.resources lists exactly the files of the migrations directory",
+]
+LEVEL_TEXT = "exhaustive symbolic execution of the migration runner over all start states (abstract DDL schema), necessary conditions only"
+LEVEL_NOTE = "a pass means the decided clauses hold for schemas produced by these scripts; SQLite engine behaviour is trusted/modelled"
+TECHNIQUE = "AST interpretation (abstract interpretation over a DDL-schema domain) + SQL DDL reader; finite start-state space enumerated completely"
+
+MIG = "llama_agents.server._store.sqlite.migrate"
+UTIL = "llama_agents.server._store.migration_utils"
+SQL_USERS = ["llama_agents.server._store.sqlite.sqlite_workflow_store", "llama_agents.server._store.sqlite.sqlite_state_store"]
+FIXTURE_DIR = "fixtures/c28"
+_FAIL_STMT = "\nALTER TABLE verif_no_such_table ADD COLUMN verif_x TEXT;\n"
+
+
+class FileModel(ModelObject):
+    _api = frozenset({"name", "read_text", "suffix", "stem"})
+
+    def __init__(self, name: str, text: str, flags: list):
+        self.name, self._text, self._flags = name, text, flags
+        self.suffix = "." + name.rsplit(".", 1)[-1] if "." in name else ""
+        self.stem = name.rsplit(".", 1)[0]
+
+    def read_text(self, *a: Any, **k: Any) -> str:
+        return self._text
+
+
+class DirModel(ModelObject):
+    _api = frozenset({"iterdir", "glob", "joinpath"})
+
+    def __init__(self, files: list[FileModel]):
+        self.files = files
+
+    def iterdir(self) -> list[FileModel]:
+        return list(self.files)
+
+    def glob(self, pattern: str) -> list[FileModel]:
+        import fnmatch
+
+        return [f for f in self.files if fnmatch.fnmatch(f.name, pattern)]
+
+
+class MigrationSet:
+    """The migration directory as the runner sees it."""
+
+    def __init__(self, entries: list[tuple[str, str]]):
+        self.entries = sorted(entries)  # (file name, text), including non-.sql entries
+        self.sql = [(n, t) for n, t in self.entries if n.endswith(".sql")]
+
+
+def _bind_migrations(repo: Any, w: World) -> tuple[str, MigrationSet]:
+    m = repo.module(MIG)
+    try:
+        pkg = w.interp(m).global_lookup(m, "_MIGRATIONS_PKG")
+    except Unsupported as e:
+        raise AnchorError(f"C28: cannot evaluate `_MIGRATIONS_PKG` in {m.rel}: {e}")
+    if not isinstance(pkg, str) or pkg not in repo.modules:
+        raise AnchorError(f"C28: `_MIGRATIONS_PKG` = {pkg!r} does not name a package of the repository")
+    d = repo.modules[pkg].rel.rsplit("/", 1)[0]
+    entries = []
+    for rel in repo.glob(d + "/*"):
+        name = rel.rsplit("/", 1)[-1]
+        if name.endswith(".pyc") or name.startswith("__pycache__"):
+            continue
+        try:
+            entries.append((name, repo.read_text(rel)))
+        except (AnchorError, UnicodeDecodeError):
+            continue  # a directory or a binary file: never a migration
+    return pkg, MigrationSet(entries)
+
+
+class Runner:
+    """Interprets `run_migrations` of the analysed tree against model databases."""
+
+    def __init__(self, repo: Any, pkg: str | None = None):
+        self.repo = repo
+        self.pkg = pkg
+        self.flags: list[str] = []
+
+    def world(self, files: list[tuple[str, str]], order: str) -> World:
+        w = World(self.repo, max_steps=400_000)
+        fl = [FileModel(n, t, self.flags) for n, t in files]
+        fl = list(reversed(fl)) if order == "reversed" else fl
+        w.ext_calls["importlib.import_module"] = lambda name: ("pkg", name)
+        w.ext_calls["importlib.resources.files"] = lambda p: DirModel(fl)
+        w.ext_calls["importlib.resources.contents"] = lambda p: [f.name for f in fl]
+        return w
+
+    def run(self, db: MiniDB, files: list[tuple[str, str]], order: str = "reversed") -> None:
+        w = self.world(files, order)
+        w.call(f"{MIG}:run_migrations", FakeConn(db))
+
+    def versions(self, files: list[tuple[str, str]]) -> list[Any]:
+        w = self.world(files, "sorted")
+        return [w.call(f"{UTIL}:parse_target_version", t) for _n, t in files]
+
+
+def _migration_rows(db: MiniDB, package: str = "server") -> list[Any]:
+    if "schema_migrations" not in db.schema.tables:
+        return []
+    cols = db.schema.columns("schema_migrations")
+    if "package" not in cols or "version" not in cols:
+        raise AnchorError("C28: `schema_migrations` has no package/version columns")
+    return sorted(r["version"] for r in db.data.get("schema_migrations", []) if r.get("package") == package)
+
+
+def _fresh() -> MiniDB:
+    db = MiniDB()
+    db.assume_rows = True
+    return db
+
+
+def analyse_set(repo: Any, ms: MigrationSet, label: str) -> dict:
+    """All R1/R2/R3-header verdicts for one migration set: {'problems': [(rule, instance, text)], 'checked': [...]}."""
+    res: dict = {"problems": [], "checked": [], "states": 0, "final": None}
+    rn = Runner(repo)
+    sql = ms.sql
+    n = len(sql)
+    try:
+        vers = rn.versions(sql)
+    except Unsupported as e:
+        raise model_unsupported("C28.R3", "`parse_target_version`", e)
+    # ---- R3 headers
+    for (name, _t), v in zip(sql, vers):
+        ok = isinstance(v, int) and v > 0
+        res["checked"].append(("C28.R3", f"header:{name}", f"`{name}` carries a version header readable by parse_target_version (got {v!r})", ok,
+                               "" if ok else "file has no readable `-- migration: N` header: run_migrations skips it silently, its statements are never applied"))
+    good = [v for v in vers if isinstance(v, int) and v > 0]
+    okseq = good == list(range(1, len(good) + 1)) and len(good) == n
+    res["checked"].append(("C28.R3", "header-sequence", f"versions in file-name order are 1..{n} without gaps or duplicates (got {vers})", okseq,
+                           "" if okseq else f"versions {vers} are not 1..{n} in file-name order: a duplicate is skipped as already applied, a gap/disorder breaks the legacy user_version seeding 1..j"))
+    # ---- R1 start states
+    def guarded(what: str, f: Callable[[], Any]) -> tuple[bool, str]:
+        try:
+            f()
+            return True, ""
+        except Raised as r:
+            return False, f"{what}: {r}"
+        except SqlUnsupported as e:
+            raise AnchorError(f"C28.R1: {what}: SQL outside the reader's subset: {e}")
+        except Unsupported as e:
+            raise model_unsupported("C28.R1", f"the migration runner ({what})", e)
+
+    ref = _fresh()
+    ok, why = guarded("fresh database", lambda: rn.run(ref, ms.entries))
+    res["states"] += 1
+    res["checked"].append(("C28.R1", "start:fresh:applies", "fresh database: every statement of every script is applicable in the state it meets", ok, why))
+    ref_schema = ref.schema.copy()
+    res["final"] = ref_schema
+    expect_rows = sorted(v for v in vers if isinstance(v, int) and v > 0)
+
+    def after(db: MiniDB, inst: str, desc: str) -> None:
+        same = db.schema.canon() == ref_schema.canon()
+        res["checked"].append(("C28.R1", f"{inst}:schema", f"{desc}: final schema equals the fresh-database schema", same, "" if same else f"final schema differs: {db.schema.diff(ref_schema)}"))
+        rows = _migration_rows(db)
+        okr = rows == expect_rows
+        res["checked"].append(("C28.R1", f"{inst}:recorded", f"{desc}: schema_migrations holds every script version exactly once ({expect_rows})", okr, "" if okr else f"recorded versions {rows}, expected {expect_rows}"))
+        before, nlog = db.state_key(), len(db.log)
+        ok2, why2 = guarded(f"{desc}, second run", lambda: rn.run(db, ms.entries))
+        idem = ok2 and db.state_key() == before and len(db.log) == nlog
+        res["checked"].append(("C28.R1", f"{inst}:rerun", f"{desc}: running the migrations again changes nothing", idem,
+                               why2 or ("" if idem else f"second run executed {db.log[nlog:]} / changed the database state")))
+
+    if ok:
+        after(ref, "start:fresh", "fresh database")
+    for j in range(1, n + 1):
+        subset = [e for e in ms.entries if not e[0].endswith(".sql")] + sql[:j]
+        # (a) prefix j produced by the runner itself when only j scripts existed
+        db = _fresh()
+        okp, whyp = guarded(f"building prefix {j}", lambda: rn.run(db, subset))
+        if okp:
+            res["states"] += 1
+            oka, whya = guarded(f"upgrade from prefix {j}", lambda: rn.run(db, ms.entries))
+            res["checked"].append(("C28.R1", f"start:prefix{j}:applies", f"database at scripts 1..{j} (recorded in schema_migrations): remaining scripts are applicable", oka, whya))
+            if oka:
+                after(db, f"start:prefix{j}", f"database at scripts 1..{j}")
+        # (b) legacy database: scripts 1..j applied, user_version = version of script j, no schema_migrations
+        for boot in (False, True):
+            db = _fresh()
+            try:
+                for _nm, t in sql[:j]:
+                    db.script(t)
+            except Raised:
+                break  # already reported for the fresh start
+            except SqlUnsupported as e:
+                raise AnchorError(f"C28.R1: SQL outside the reader's subset: {e}")
+            vj = vers[j - 1]
+            if not (isinstance(vj, int) and vj > 0):
+                break
+            db.user_version = vj
+            db.log.clear()
+            inst = f"start:legacy{j}" + ("+bootstrapped" if boot else "")
+            desc = f"legacy database (user_version={vj}, scripts 1..{j} applied" + (", bootstrapped by a release that had only these scripts)" if boot else ", no schema_migrations)")
+            if boot:
+                okb, _w = guarded(f"bootstrapping legacy {j}", lambda: rn.run(db, subset))
+                if not okb:
+                    continue
+            res["states"] += 1
+            okl, whyl = guarded(desc, lambda: rn.run(db, ms.entries))
+            res["checked"].append(("C28.R1", f"{inst}:applies", f"{desc}: remaining scripts are applicable, none is re-applied", okl, whyl))
+            if okl:
+                after(db, inst, desc)
+    # ---- R2 failure bookkeeping
+    if ok:
+        for i in range(n):
+            name = sql[i][0]
+            broken = [e for e in ms.entries if not e[0].endswith(".sql")] + sql[:i] + [(name, sql[i][1] + _FAIL_STMT)] + sql[i + 1:]
+            before_files = [e for e in ms.entries if not e[0].endswith(".sql")] + sql[:i]
+            want = _fresh()
+            okw, _ = guarded("reference for failure injection", lambda: rn.run(want, before_files))
+            if not okw:
+                continue
+            db = _fresh()
+            raised = False
+            try:
+                rn.run(db, broken)
+            except Raised:
+                raised = True
+            except SqlUnsupported as e:
+                raise AnchorError(f"C28.R2: SQL outside the reader's subset: {e}")
+            except Unsupported as e:
+                raise model_unsupported("C28.R2", "the migration runner (failure path)", e)
+            res["checked"].append(("C28.R2", f"fail:{i + 1}:propagates", f"a failing statement in `{name}` makes run_migrations raise", raised,
+                                   "" if raised else "the failure is swallowed: later scripts run on a partially migrated schema"))
+            clean = db.schema.canon() == want.schema.canon() and _migration_rows(db) == _migration_rows(want) and db._snap is None
+            res["checked"].append(("C28.R2", f"fail:{i + 1}:rolled-back", f"after a failure in `{name}` the schema and schema_migrations equal the state before that script and no transaction stays open", clean,
+                                   "" if clean else f"schema: {db.schema.diff(want.schema)}; recorded {_migration_rows(db)} vs {_migration_rows(want)}; open transaction: {db._snap is not None}"))
+    res["flags"] = list(rn.flags)
+    return res
+
+
+# ---------------------------------------------------------------------------- R3: SQL text of the stores vs. final schema
+
+_SQL_START = re.compile(r"^\s*(SELECT|INSERT|UPDATE|DELETE|REPLACE|CREATE|ALTER|DROP)\b")
+_SQL_FRAG = re.compile(r"^\s*(AND|OR|WHERE|ORDER\s+BY|LIMIT|GROUP\s+BY|SET)\b|\bIS\s+(NOT\s+)?NULL\b|\bIN\s*\(")
+_SQL_WORDS = {
+    "AND", "OR", "NOT", "NULL", "IS", "IN", "WHERE", "ORDER", "BY", "LIMIT", "ASC", "DESC", "SET", "VALUES", "LIKE", "BETWEEN", "EXCLUDED", "AS", "ON",
+    "GROUP", "HAVING", "OFFSET", "CURRENT_TIMESTAMP", "TRUE", "FALSE", "CONFLICT", "DO", "UPDATE", "NOTHING",
+}
+
+
+def _string_text(node: ast.AST) -> tuple[str, list[ast.AST]] | None:
+    """Text of a str constant / f-string with every interpolation replaced by `?`; plus the interpolated expressions."""
+    if isinstance(node, ast.Constant) and isinstance(node.value, str):
+        return node.value, []
+    if isinstance(node, ast.JoinedStr):
+        out, holes = [], []
+        for v in node.values:
+            if isinstance(v, ast.Constant):
+                out.append(str(v.value))
+            else:
+                out.append(" ? ")
+                holes.append(v.value)
+        return "".join(out), holes
+    return None
+
+
+def _is_docstring(node: ast.AST) -> bool:
+    p = parent(node)
+    return isinstance(p, ast.Expr) and isinstance(parent(p), FuncNode + (ast.ClassDef, ast.Module))
+
+
+def sql_sites(m: Module) -> list[dict]:
+    sites = []
+    for node in ast.walk(m.tree):
+        if not isinstance(node, (ast.Constant, ast.JoinedStr)):
+            continue
+        if isinstance(parent(node), (ast.JoinedStr, ast.FormattedValue)) or _is_docstring(node):
+            continue
+        st = _string_text(node)
+        if st is None:
+            continue
+        text, holes = st
+        fn = enclosing_function(node)
+        if fn is None:
+            continue
+        stripped = re.sub(r"^(\s*\?\s*)+", "", text)
+        if _SQL_START.match(stripped) and stripped is text:
+            sites.append({"node": node, "fn": fn, "text": text, "kind": "statement", "holes": holes})
+        elif _SQL_START.match(text):
+            sites.append({"node": node, "fn": fn, "text": text, "kind": "statement", "holes": holes})
+        elif _SQL_FRAG.search(stripped):
+            sites.append({"node": node, "fn": fn, "text": stripped, "kind": "fragment", "holes": holes})
+    return sites
+
+
+def _column_args(m: Module, site: dict) -> list[tuple[ast.AST, str]]:
+    """Constant strings passed for a parameter of a local helper that is interpolated into SQL text
+    (`add_in_clause("status", ...)` with f"{column} IN (...)")."""
+    out = []
+    fn = site["fn"]
+    params = [a.arg for a in fn.args.posonlyargs + fn.args.args]
+    for h in site["holes"]:
+        if isinstance(h, ast.Name) and h.id in params:
+            idx = params.index(h.id)
+            scope = enclosing_function(fn) or m.tree
+            for c in ast.walk(scope):
+                if isinstance(c, ast.Call) and isinstance(c.func, ast.Name) and c.func.id == fn.name:
+                    arg = c.args[idx] if len(c.args) > idx else next((k.value for k in c.keywords if k.arg == h.id), None)
+                    if isinstance(arg, ast.Constant) and isinstance(arg.value, str):
+                        out.append((arg, arg.value))
+                    elif arg is not None:
+                        raise AnchorError(f"C28.R3: column name passed to `{fn.name}` in {m.rel} is not a constant (`{ast.unparse(arg)[:40]}`)")
+    return out
+
+
+def check_sql_users(chk: Any, schema: Schema, mods: list[str], extra_tables: Schema | None = None) -> None:
+    repo = chk.repo
+    n_stmt = n_frag = n_cols = 0
+    for modname in mods:
+        m = repo.module(modname)
+        sites = sql_sites(m)
+        tables_by_fn: dict[int, set[str]] = {}
+        mod_tables: set[str] = set()
+        parsed = []
+        for s in sites:
+            if s["kind"] != "statement":
+                continue
+            try:
+                sts = parse_sql(s["text"])
+            except SqlUnsupported as e:
+                raise AnchorError(f"C28.R3: SQL text at {m.rel}:{s['node'].lineno} is outside the reader's subset: {e}")
+            for st in sts:
+                if st["kind"] in ("txn", "pragma"):
+                    continue
+                parsed.append((s, st))
+                for t, _c in column_refs(st) if st["kind"] in ("select", "insert", "delete", "update") else []:
+                    if t:
+                        tables_by_fn.setdefault(id(s["fn"]), set()).add(t)
+                        mod_tables.add(t)
+        for s, st in parsed:
+            n_stmt += 1
+            if st["kind"] not in ("select", "insert", "delete", "update"):
+                continue
+            missing = []
+            for t, c in column_refs(st):
+                if t is None or t == "sqlite_master":
+                    continue
+                sch = schema if t in schema.tables else (extra_tables if extra_tables is not None and t in extra_tables.tables else None)
+                if sch is None:
+                    missing.append(f"table {t}")
+                elif c != "*table*" and c not in sch.columns(t):
+                    missing.append(f"{t}.{c}")
+            tabs = sorted({t for t, _c in column_refs(st) if t})
+            chk.ob("C28.R3", f"{st['kind'].upper()} on {','.join(tabs)} names only tables/columns of the final migrated schema", not missing,
+                   m=m, node=s["node"], fn=s["fn"], instance=f"sql:{st['kind']}:{','.join(tabs)}:{_ordinal(parsed, s, st)}",
+                   reason="" if not missing else f"not in the schema the migrations converge to: {sorted(set(missing))}")
+        for s in sites:
+            idents: list[tuple[ast.AST, str]] = []
+            if s["kind"] == "fragment":
+                n_frag += 1
+                try:
+                    toks = sql_tokens(s["text"])
+                except SqlUnsupported:
+                    continue
+                for i, t in enumerate(toks):
+                    if t.kind == "id" and t.up not in _SQL_WORDS and not (i + 1 < len(toks) and toks[i + 1].val == "("):
+                        if i > 0 and toks[i - 1].val == ".":
+                            continue
+                        idents.append((s["node"], t.val.lower()))
+            idents += [(n, v.lower()) for n, v in _column_args(m, s)]
+            for node, ident in idents:
+                n_cols += 1
+                fn = s["fn"]
+                cand = set()
+                f: ast.AST | None = fn
+                while f is not None and not cand:
+                    cand = tables_by_fn.get(id(f), set())
+                    f = enclosing_function(f)
+                cand = cand or mod_tables
+                ok = any(t in schema.tables and ident in schema.columns(t) for t in cand)
+                chk.ob("C28.R3", f"SQL fragment column `{ident}` exists in a table this code queries ({', '.join(sorted(cand))})", ok,
+                       m=m, node=node, fn=fn, instance=f"sqlfrag:{ident}", reason=f"`{ident}` is not a column of {sorted(cand)} in the final migrated schema")
+    chk.floor("C28.R3", "SQL statements in the SQLite stores parsed and compared with the final schema", n_stmt, 12)
+    chk.floor("C28.R3", "SQL fragment column names compared with the final schema", n_cols, 6)
+
+
+def _ordinal(parsed: list, s: dict, st: dict) -> int:
+    k = 0
+    for s2, st2 in parsed:
+        if s2["fn"] is s["fn"] and st2["kind"] == st["kind"]:
+            if s2 is s and st2 is st:
+                return k
+            k += 1
+    return k
+
+
+# ---------------------------------------------------------------------------- run
+
+
+def _load_fixture(name: str) -> MigrationSet:
+    from ..report import VERIF
+
+    d = VERIF / FIXTURE_DIR / name
+    if not d.is_dir():
+        raise AnchorError(f"C28: fixture directory {d} is missing")
+    return MigrationSet([(p.name, p.read_text()) for p in sorted(d.iterdir()) if p.is_file()])
+
+
+def run(chk: Any) -> None:
+    repo = chk.repo
+    m = repo.module(MIG)
+    mu = repo.module(UTIL)
+    for ref in (f"{MIG}:run_migrations", f"{MIG}:_bootstrap_schema_migrations", f"{UTIL}:parse_target_version", f"{UTIL}:iter_migration_files"):
+        mod, fn = repo.func(ref)
+        chk.note_fn(mod, fn)
+    w = World(repo)
+    pkg, ms = _bind_migrations(repo, w)
+    chk.floor("C28.R1", "migration scripts (*.sql) found through `_MIGRATIONS_PKG`", len(ms.sql), 4)
+    _, run_fn = repo.func(f"{MIG}:run_migrations")
+    _, ptv_fn = repo.func(f"{UTIL}:parse_target_version")
+
+    res = analyse_set(repo, ms, "repo")
+    anchor = {"C28.R1": (m, run_fn), "C28.R2": (m, run_fn), "C28.R3": (mu, ptv_fn)}
+    for rule, inst, desc, ok, why in res["checked"]:
+        mod, fn = anchor[rule]
+        chk.ob(rule, desc, ok, m=mod, node=fn, fn=fn, instance=inst, reason=why)
+    chk.floor("C28.R1", "start states executed symbolically (fresh, prefixes, legacy, legacy+bootstrapped)", res["states"], 1 + 3 * len(ms.sql) if all(o[3] for o in res["checked"] if o[0] != "C28.R2") else 1)
+    chk.floor("C28.R2", "failure-injection runs (one per script)", sum(1 for o in res["checked"] if o[1].endswith(":propagates")), len(ms.sql) if all(o[3] for o in res["checked"] if o[1] == "start:fresh:applies") else 0)
+    chk.exhaustive = True
+    chk.extra["start_states"] = res["states"]
+    final: Schema = res["final"]
+    chk.extra["final_schema"] = final.describe()
+
+    # R3: SQL text of the stores (and the runner's own bookkeeping SQL) against the final schema
+    book = Schema()
+    try:
+        ddl = w.interp(m).global_lookup(m, "_SCHEMA_MIGRATIONS_DDL")
+        for st in parse_sql(ddl):
+            if st["kind"] in DDL_KINDS:
+                book.apply(st)
+    except (Unsupported, AnchorError):
+        book = final
+    full = final.copy()
+    for t, d in book.tables.items():
+        full.tables.setdefault(t, d)
+    check_sql_users(chk, full, SQL_USERS + [MIG])
+
+    # planted positive example: the rules must report the fixture's defects on every run
+    nbad = 0
+    for fxname in ("bad_migrations", "inapplicable"):
+        # the fixtures are run through the *analysed tree's* runner, so only "something is reported" is stable
+        fx = analyse_set(repo, _load_fixture(fxname), "fixture")
+        bad = {(r, i) for r, i, _d, ok, _w in fx["checked"] if not ok and r in ("C28.R1", "C28.R3")}
+        nbad += len(bad)
+        if not bad:
+            raise AnchorError(f"C28.R1: the planted fixture ({FIXTURE_DIR}/{fxname}) was not reported; the rule is blind")
+    chk.floor("C28.R1", "planted fixture defects reported (inapplicable statement, diverging schema, bad header sequence)", nbad, 2)
+
+    chk.observe("`run_migrations` issues BEGIN through executescript and COMMIT through cursor.execute; atomicity of script + version row relies on "
+                "SQLite transactional DDL and on sqlite3 not auto-committing in between (modelled, not verified).")
+
+
+# ---------------------------------------------------------------------------- twins
+
+_D = "packages/llama-agents-server/src/llama_agents/server/_store/"
+_PM = _D + "sqlite/migrate.py"
+_PU = _D + "migration_utils.py"
+_PW = _D + "sqlite/sqlite_workflow_store.py"
+_S1, _S2, _S3, _S4 = (_D + "sqlite/migrations/" + n for n in ("0001_init.sql", "0002_extend_handlers.sql", "0003_add_idle_since.sql", "0004_add_ticks.sql"))
+
+TWINS = [
+    # ---- R1 breaking
+    Twin("index on a column a later script adds", _S1, "    ctx TEXT\n);", "    ctx TEXT\n);\nCREATE INDEX IF NOT EXISTS idx_handlers_run_id ON handlers (run_id);", "C28.R1"),
+    Twin("legacy seeding off by one", _PM, "for v in range(1, legacy_version + 1):", "for v in range(1, legacy_version):", "C28.R1"),
+    Twin("applied-version skip dropped", _PM, "if target_version in applied or target_version == 0:", "if target_version == 0:", "C28.R1"),
+    Twin("applied versions read for the wrong package key", _PM, "            (package_name,),\n        ).fetchall()", "            (source_pkg,),\n        ).fetchall()", "C28.R1"),
+    Twin("NOT NULL column without default added to a populated table", _S2, "ALTER TABLE handlers ADD COLUMN run_id TEXT;", "ALTER TABLE handlers ADD COLUMN run_id TEXT NOT NULL;", "C28.R1"),
+    Twin("scripts applied in directory order", _PU, "return sorted(files, key=lambda p: p.name)", "return list(files)", "C28.R1"),
+    Twin("duplicate version header hides a script", _S3, "-- migration: 3", "-- migration: 2", "C28.R1"),
+    Twin("legacy bootstrap seeds under another package name", _PM, '                ("server", v),', '                ("llama_agents", v),', "C28.R1"),
+    # ---- R2 breaking
+    Twin("failed migration swallowed", _PM, '                cur.execute("ROLLBACK")\n                raise\n', '                cur.execute("ROLLBACK")\n', "C28.R2"),
+    Twin("failed migration not rolled back", _PM, '                cur.execute("ROLLBACK")\n                raise\n', "                raise\n", "C28.R2"),
+    Twin("version recorded even when the script failed", _PM, "            else:\n                cur.execute(\n                    \"INSERT INTO schema_migrations", "            finally:\n                cur.execute(\n                    \"INSERT INTO schema_migrations", "C28.R2"),
+    # ---- R3 breaking
+    Twin("header pushed off the first line", _S3, "-- migration: 3\n", "-- Add idle tracking\n-- migration: 3\n", "C28.R3"),
+    Twin("version gap", _S4, "-- migration: 4", "-- migration: 5", "C28.R3"),
+    Twin("store filters on a column no script creates", _PW, '"idle_since IS NULL"', '"idle_at IS NULL"', "C28.R3"),
+    Twin("store reads a column no script creates", _PW, '"SELECT ctx FROM handlers WHERE run_id = ?"', '"SELECT context FROM handlers WHERE run_id = ?"', "C28.R3"),
+    Twin("column dropped from the script but still written by the store", _S2, "ALTER TABLE handlers ADD COLUMN completed_at TEXT;\n", "", "C28.R3"),
+    # ---- benign
+    Twin("benign: IF NOT EXISTS removed (bookkeeping already prevents re-application)", _S4, "CREATE TABLE IF NOT EXISTS ticks (", "CREATE TABLE ticks (", None),
+    Twin("benign: seeding guard removed (empty range)", _PM, "    if legacy_version > 0:\n", "    if True:\n", None),
+    Twin("benign: header searched in the whole text", _PU, "match = VERSION_PATTERN.search(first_line)", "match = VERSION_PATTERN.search(sql_text or first_line)", None),
+    Twin("benign: skip test rewritten", _PM, "if target_version in applied or target_version == 0:", "if not target_version or target_version in applied:", None),
+    Twin("benign: plain INSERT in the guarded bootstrap", _PM, '"INSERT OR IGNORE INTO schema_migrations (package, version) VALUES (?, ?)"', '"INSERT INTO schema_migrations (package, version) VALUES (?, ?)"', None),
+    Twin("benign: case-insensitive file order", _PU, "key=lambda p: p.name)", "key=lambda p: p.name.lower())", None),
+    Twin("benign: suffix filter dropped (only empty __init__.py is added)", _PU, 'files = (p for p in root.iterdir() if p.name.endswith(".sql"))', "files = (p for p in root.iterdir())", None),
+    Twin("benign: table alias in store SQL", _PW, '"SELECT ctx FROM handlers WHERE run_id = ?"', '"SELECT h.ctx FROM handlers h WHERE h.run_id = ?"', None),
+    Twin("benign: early continue replaced by nested if", _PM, "            if target_version in applied or target_version == 0:\n                continue\n\n            try:", "            if target_version in applied or target_version == 0:\n                continue\n            assert target_version > 0\n\n            try:", None),
+    Twin("benign: commit through the connection", _PM, '                cur.execute("COMMIT")', "                conn.commit()", None),
+]
